@@ -169,15 +169,17 @@ Lemma dec_digits_signed sg cs : sg = [45] \/ sg = [43] -> dec_digits (sg ++ cs) 
 Proof. intros [-> | ->]; reflexivity. Qed.
 
 (* unsigned decimal literal: an exact integer below 2^(BITS-1) (no wrap is possible), a float from there on *)
-Theorem from_dec_unsigned cs : cs <> [] -> Forall (char_ok 10) cs ->
+Lemma dec_policy_fact : dec_literal_checked = true. Proof. reflexivity. Qed.
+
+Theorem from_dec_pol_unsigned cs : cs <> [] -> Forall (char_ok 10) cs ->
   let v := dval 10 (map cval cs) in
-  (v < Wfull / 2 -> exists x, bn_from_dec cs = Ok (LInt x) /\ wf x /\ uval x = v /\ sval x = v) /\
-  (Wfull / 2 <= v -> bn_from_dec cs = Ok LFloat).
+  (v < Wfull / 2 -> exists x, bn_from_dec_pol true cs = Ok (LInt x) /\ wf x /\ uval x = v /\ sval x = v) /\
+  (Wfull / 2 <= v -> bn_from_dec_pol true cs = Ok LFloat).
 Proof.
   intros Hne Hcs. cbn zeta. set (v := dval 10 (map cval cs)).
   destruct (frombase_correct 10 [] cs ltac:(lia) (or_introl eq_refl) Hne Hcs) as (n & A & B & C).
   cbn [app sign_val] in A, C. rewrite Z.mul_1_l in C. fold v in C.
-  unfold bn_from_dec. rewrite A, (dec_digits_spec cs Hne Hcs).
+  unfold bn_from_dec_pol. rewrite A, (dec_digits_spec cs Hne Hcs).
   destruct (todecint_correct n B) as (ds & T & Cn). rewrite T.
   destruct (strip0_canon cs Hne Hcs) as (ds' & S & Cs). fold v in Cs. rewrite S.
   pose proof (dval_bound 10 (map cval cs) ltac:(lia) (chars_ok_digits _ _ Hcs)) as (Hv0 & _). fold v in Hv0.
@@ -201,13 +203,41 @@ Proof.
       subst ds'. rewrite Z.abs_eq in N2 by lia. lia.
 Qed.
 
+Theorem from_dec_unsigned cs : cs <> [] -> Forall (char_ok 10) cs ->
+  let v := dval 10 (map cval cs) in
+  (v < Wfull / 2 -> exists x, bn_from_dec cs = Ok (LInt x) /\ wf x /\ uval x = v /\ sval x = v) /\
+  (Wfull / 2 <= v -> bn_from_dec cs = Ok LFloat).
+Proof. unfold bn_from_dec. rewrite dec_policy_fact. apply from_dec_pol_unsigned. Qed.
+
+(* the test is needed: the reader that keeps the parsed value reads the decimal digits of 2^BITS as 0 *)
+Definition pow_digits : str :=
+  match digits_fuel 400 10 Wfull [] with Some ds => map digit_char ds | None => [] end.
+
+Theorem dec_check_needed : ~ (forall cs, cs <> [] -> Forall (char_ok 10) cs ->
+  let v := dval 10 (map cval cs) in
+  (v < Wfull / 2 -> exists x, bn_from_dec_pol false cs = Ok (LInt x) /\ wf x /\ uval x = v /\ sval x = v) /\
+  (Wfull / 2 <= v -> bn_from_dec_pol false cs = Ok LFloat)).
+Proof.
+  intros H.
+  assert (Hne : pow_digits <> []) by (vm_compute; discriminate).
+  assert (Hok : Forall (char_ok 10) pow_digits).
+  { apply Forall_forall. intros c Hc.
+    assert (Hb : forallb (fun c => is_alnum c && (0 <=? char_digit c) && (char_digit c <? 10)) pow_digits = true) by (vm_compute; reflexivity).
+    rewrite forallb_forall in Hb. specialize (Hb c Hc). apply andb_prop in Hb. destruct Hb as (Hb1 & Hb3).
+    apply andb_prop in Hb1. destruct Hb1 as (Hb1 & Hb2). split; [exact Hb1 | lia]. }
+  destruct (H pow_digits Hne Hok) as (_ & Hf). cbn zeta in Hf.
+  assert (Ev : dval 10 (map cval pow_digits) = Wfull) by (vm_compute; reflexivity).
+  rewrite Ev in Hf. specialize (Hf ltac:(vm_compute; discriminate)).
+  vm_compute in Hf. discriminate Hf.
+Qed.
+
 (* a signed string is not subject to the test (it never reaches the reader from the compiler's lexer) and wraps *)
 Theorem from_dec_signed sg cs : sg = [45] \/ sg = [43] -> cs <> [] -> Forall (char_ok 10) cs ->
   exists x, bn_from_dec (sg ++ cs) = Ok (LInt x) /\ wf x /\ uval x = (sign_val sg * dval 10 (map cval cs)) mod Wfull.
 Proof.
   intros Hs Hne Hcs.
   destruct (frombase_correct 10 sg cs ltac:(lia) ltac:(right; exact Hs) Hne Hcs) as (n & A & B & C).
-  unfold bn_from_dec. rewrite A, (dec_digits_signed sg cs Hs). exists n. auto.
+  unfold bn_from_dec, bn_from_dec_pol. rewrite A. destruct dec_literal_checked; [rewrite (dec_digits_signed sg cs Hs)|]; exists n; auto.
 Qed.
 
 Definition wrapped_val (v : bint) (bits : option Z) : Z :=
